@@ -1208,11 +1208,60 @@ package mcp
 //@   track decodeHeaderValue as decode
 //@   track primitiveEqual as same
 //@   track fmt.Errorf as report
-//@   requires msg != nil && tool != nil
+//@   requires msg != nil
 //@   modifies *
 //@   assert at call fmt.Errorf: @missing-only-if-absent $0 == "header mismatch: missing %s header for parameter %q" ==> len(hdrValues(header, local(fullHeader))) == 0
 //@   assert at call decodeHeaderValue: @only-present-headers-are-decoded len(hdrValues(header, local(fullHeader))) > 0
 //@   assert at call primitiveEqual: @decoded-header-is-compared-with-the-body calls(decode) >= 1 && $0 == lastResult(decode, 0) && lastResult(decode, 1)
+// validateMcpHeaders (server) and setStandardHeaders (client): under 2026-07-28 the Mcp-Method header must be present
+// and equal the body's method; for tools/call, resources/read and prompts/get the Mcp-Name header must be present and
+// equal the name extracted from the body; for a tools/call of a tool the server knows, the parameter headers are
+// checked against that very tool. Older versions are exempt. The client sets exactly these headers from the body.
+// extractName decodes the params into a fresh value: nothing visible changes; only the three named methods have a name.
+//@ func extractName [C12]
+//@   modifies extern
+//@   ensures @only-named-methods-have-a-name result.1 ==> method == "tools/call" || method == "prompts/get" || method == "resources/read"
+//@ func validateMcpHeaders [C12]
+//@   track extractName as name
+//@   track validateParamHeaders as params
+//@   track toolLookup as lookup
+//@   ghost pv := old(hdrGet(header, protocolVersionHeader))
+//@   ghost applies := pv != "" && pv >= minVersionForStandardHeaders && typeIs(msg, *jsonrpc.Request)
+//@   ghost m := old(msg.(*jsonrpc.Request).Method)
+//@   ghost named := m == "tools/call" || m == "resources/read" || m == "prompts/get"
+//@   modifies *
+//@   ensures @older-versions-are-exempt !(pv != "" && pv >= minVersionForStandardHeaders) ==> result == nil && calls(params) == 0
+//@   ensures @method-header-equals-the-body-method applies && result == nil ==> old(hdrGet(header, methodHeader)) != "" && old(hdrGet(header, methodHeader)) == m
+//@   ensures @name-header-equals-the-body-name applies && named && result == nil ==> calls(name) == 1 && callResult(name, 1, 1) && callArg(name, 1, 0) == m
+//@        && old(hdrGet(header, nameHeader)) != "" && old(hdrGet(header, nameHeader)) == callResult(name, 1, 0)
+//@   ensures @the-tool-looked-up-is-the-one-named calls(lookup) <= 1 && (calls(lookup) == 1 ==> calls(name) == 1 && callArg(lookup, 1, 0) == callResult(name, 1, 0))
+//@   ensures @the-tool-of-a-call-is-looked-up applies && m == "tools/call" && toolLookup != nil && result == nil ==> calls(lookup) == 1
+//@   ensures @a-known-tool-has-its-parameter-headers-checked applies && result == nil && calls(lookup) == 1 && callResult(lookup, 1, 1) && callResult(lookup, 1, 0) != nil ==> calls(params) == 1 && callResult(params, 1, 0) == nil
+//@   ensures @parameter-headers-are-checked-against-this-request calls(params) <= 1 && (calls(params) == 1 ==> callArg(params, 1, 1) == msg.(*jsonrpc.Request) && callArg(params, 1, 0) == header)
+//@   ensures @a-parameter-mismatch-is-reported calls(params) == 1 && callResult(params, 1, 0) != nil ==> result != nil
+//@ func setStandardHeaders [C12]
+//@   track extractName as name
+//@   track Set as setMethod when $1 == methodHeader
+//@   track Set as setName when $1 == nameHeader
+//@   ghost pv := old(hdrGet(header, protocolVersionHeader))
+//@   ghost applies := msg != nil && pv != "" && pv >= minVersionForStandardHeaders && typeIs(msg, *jsonrpc.Request)
+//@   modifies *
+//@   ensures @the-method-header-mirrors-the-body-method applies ==> calls(setMethod) == 1 && callArg(setMethod, 1, 2) == old(msg.(*jsonrpc.Request).Method)
+//@   ensures @the-name-header-mirrors-the-body-name applies ==> calls(name) == 1 && callArg(name, 1, 0) == old(msg.(*jsonrpc.Request).Method)
+//@        && (callResult(name, 1, 1) ==> calls(setName) == 1 && callArg(setName, 1, 2) == callResult(name, 1, 0))
+//@   ensures @standard-headers-only-under-the-new-protocol !applies ==> calls(setMethod) == 0 && calls(setName) == 0
+//@   loop 1: invariant @parameter-headers-never-replace-the-standard-ones calls(setMethod) == 1 && callArg(setMethod, 1, 2) == old(msg.(*jsonrpc.Request).Method) && calls(name) == 1
+//@        && callArg(name, 1, 0) == old(msg.(*jsonrpc.Request).Method) && (callResult(name, 1, 1) ==> calls(setName) == 1 && callArg(setName, 1, 2) == callResult(name, 1, 0))
+// unmarshalPrimitive: what is mirrored into a header is a string, a boolean or an integer (never a float or a
+// composite value); anything else comes back as nil.
+//@ func unmarshalPrimitive [C12]
+//@   modifies extern
+//@   ensures @only-primitives-are-mirrored result == nil || typeIs(result, string) || typeIs(result, bool) || typeIs(result, int64)
+// generateParamHeaders: every header name it produces starts with "Mcp-Param-" (so none can replace Mcp-Method or Mcp-Name).
+//@ func generateParamHeaders [C12]
+//@   modifies *
+//@   ensures @only-parameter-headers-are-generated forall k string :: {inDom(result, k)} inDom(result, k) ==> hasPrefix(k, paramHeaderPrefix)
+//@   loop 1: invariant @only-parameter-headers-so-far forall k string :: {inDom(local(res), k)} inDom(local(res), k) ==> hasPrefix(k, paramHeaderPrefix)
 //@ func lookupArgument [C12]
 //@   modifies extern
 // extractParamHeaderAnnotations decodes the tool's input schema into fresh values (assumed: it writes nothing else).
